@@ -330,6 +330,20 @@ Theorem C02_checked_observation_never_twice :
 Proof. exact checked_never_twice. Qed.
 Print Assumptions C02_checked_observation_never_twice.
 
+(* exactly once for a CHECKED observation: whenever the correspondence check accepts a case, for a
+   one-off script whose time lies inside the script, an observed outcome in which no
+   CancelJob(-IfExists) call returned nil or was silent, no context cancellation was issued and
+   jobFunc was not in progress at the end shows exactly one start of jobFunc.  (The observed
+   outcome is that of a final state of the model's script; the theorem above applies to it.) *)
+Theorem C02_checked_observation_exactly_once :
+  forall c sc os, agree c = true -> c_body c = Timed sc os ->
+    sc_kind sc = OneOff -> sc_variant sc = Fixed -> sc_due sc <= sc_end sc ->
+    forall ob, In ob os -> ob_running ob = 0 ->
+      obs_no_success sc KCancel (o_calls (ob_out ob)) -> obs_no_success sc KCtx (o_calls (ob_out ob)) ->
+      length (o_starts (ob_out ob)) = 1%nat.
+Proof. exact checked_exactly_once. Qed.
+Print Assumptions C02_checked_observation_exactly_once.
+
 (* ---------------------------------------------------------------------------------------------
    Non-vacuity. *)
 
